@@ -27,6 +27,8 @@
 //!             validate: body.validate()          all: MarshalledMessage::unmarshall_all()
 //!   HD <phase> <hex>                                 unmarshal_header, unmarshal_dynamic_header, unmarshal_next_message as
 //!                                                    RecvConn::get_next_message calls them, then validate + unmarshall_all
+//!   HB <bo> <nfields> <each>                          a header whose field array holds <nfields> unknown fields, each a byte
+//!                                                    array of <each> bytes (built here): unmarshal_header + unmarshal_dynamic_header
 //!   RX <hex>                                         the bytes are written to the peer end of a real connection,
 //!                                                    conn.recv.get_next_message(Duration(50ms))
 //!   SB <kind> <bo> <content_bytes>                   push an array whose content has that many bytes; kind u8|u64|bool|pstr
@@ -482,6 +484,53 @@ fn eval(line: &str) -> String {
             let val = msg.body.validate().is_ok();
             let all = msg.unmarshall_all().is_ok();
             format!("ok validate={} all={} {}", val, all, m.stop())
+        }
+        "HB" => {
+            let bo = bo_of(toks[1]);
+            let (nfields, each) = (num(2), num(3));
+            let u32b = |v: u32| match bo {
+                ByteOrder::LittleEndian => v.to_le_bytes(),
+                ByteOrder::BigEndian => v.to_be_bytes(),
+            };
+            let mut fields: Vec<u8> = Vec::with_capacity(nfields * (each + 32) + 64);
+            // path and member, as a method call needs them
+            fields.extend_from_slice(&[1, 1, b'o', 0]);
+            fields.extend_from_slice(&u32b(2));
+            fields.extend_from_slice(b"/p\0");
+            while fields.len() % 8 != 0 {
+                fields.push(0);
+            }
+            fields.extend_from_slice(&[3, 1, b's', 0]);
+            fields.extend_from_slice(&u32b(1));
+            fields.extend_from_slice(b"M\0");
+            for i in 0..nfields {
+                while fields.len() % 8 != 0 {
+                    fields.push(0);
+                }
+                fields.extend_from_slice(&[100 + i as u8, 2, b'a', b'y', 0, 0, 0, 0]);
+                fields.extend_from_slice(&u32b(each as u32));
+                fields.resize(fields.len() + each, 0);
+            }
+            let hfl = fields.len();
+            let mut msg: Vec<u8> = Vec::with_capacity(hfl + 32);
+            msg.extend_from_slice(&[if matches!(bo, ByteOrder::LittleEndian) { b'l' } else { b'B' }, 1, 0, 1]);
+            msg.extend_from_slice(&u32b(0));
+            msg.extend_from_slice(&u32b(1));
+            msg.extend_from_slice(&u32b(hfl as u32));
+            msg.append(&mut fields);
+            while msg.len() % 8 != 0 {
+                msg.push(0);
+            }
+            let m = Meter::start();
+            let mut cursor = Cursor::new(&msg);
+            let header = match rustbus::wire::unmarshal::unmarshal_header(&mut cursor) {
+                Ok(h) => h,
+                Err(_) => return format!("err stage=header hfl={} {}", hfl, m.stop()),
+            };
+            match rustbus::wire::unmarshal::unmarshal_dynamic_header(&header, &mut cursor) {
+                Ok(_) => format!("ok hfl={} consumed={} {}", hfl, cursor.consumed(), m.stop()),
+                Err(_) => format!("err stage=dynheader hfl={} {}", hfl, m.stop()),
+            }
         }
         "RX" => {
             let bytes = unhex(toks[1]);
